@@ -349,6 +349,11 @@ class _Packs(dict):
     '-', <where> is 'i' (both initial strategies) or 'x' (second expansion set)."""
 
     def __missing__(self, name):
+        if name.startswith("of1_"):
+            # one-factor-product packs (harness/universes/words_onefactor.py); never drawn by random_cfg
+            from harness.universes import words_onefactor
+
+            return words_onefactor.PACKS[name]
         if not name.startswith("ow3|"):
             raise KeyError(name)
         _, s1, s2, where = name.split("|")
